@@ -263,13 +263,13 @@ theorem C16_misuse_add_local_input (s : P2P) (h : Nat) (v : Input) (hl : Â¬ h âˆ
 /-- advancing before synchronisation -/
 theorem C16_misuse_not_synchronized (s : P2P) (now : Nat) (hr : s.running = false) :
     s.advanceFrameAfterPoll now = .ok (s, .error .notSynchronized) := by
-  simp [advanceFrameAfterPoll, hr, pure, Except.pure]
+  simp [advanceFrameAfterPoll, advanceFrameCore, hr, pure, Except.pure, bind, Except.bind]
 
 /-- advancing with an input missing -/
 theorem C16_misuse_missing_input (s : P2P) (now : Nat) (hr : s.running = true)
     (hm : (s.localPlayerHandles.all fun h => s.pendingLocalInputs.any (Â·.1 == h)) = false) :
     s.advanceFrameAfterPoll now = .ok (s, .error .invalidRequest) := by
-  simp [advanceFrameAfterPoll, hr, hm, pure, Except.pure]
+  simp [advanceFrameAfterPoll, advanceFrameCore, hr, hm, pure, Except.pure, bind, Except.bind]
 
 /-- disconnecting a local or unknown player, or one that is already disconnected -/
 theorem C16_misuse_disconnect (s : P2P) (now h : Nat)
